@@ -84,6 +84,54 @@ def defaults_isolated(ctx):
             ctx.violation(f"defaults-not-isolated:{mk}", "; ".join(bad), {"history": hist, "observed": bad})
 
 
+def sparse_sampling(ctx):
+    """'any sampling': coarsely sampled exact curves fitted on an interval that holds only a handful of samples
+    (more than the number of varied parameters plus one, which is all the fitter asks for)"""
+    from props.c02 import documented
+    from curves import make_indentation
+    rng = ctx.rng
+    for i in range(8 if ctx.tier == "quick" else 120):
+        mk = rng.choice(fitlib.MODELS[:4])
+        truth = fitlib.truth_params(mk, rng, cp=0.0)
+        P = {k: float(truth[k].value) for k in truth}
+        step = rng.choice([1.5e-7, 2e-7, 2.5e-7])
+        off = rng.uniform(0.2, 0.8) * step
+        tip_a = off + step * np.arange(8, -7, -1.0)              # 15 samples, contact point between two of them
+        tip_r = tip_a[::-1][1:]
+        tip = np.concatenate([tip_a, tip_r])
+        segm = np.concatenate([np.zeros(tip_a.size), np.ones(tip_r.size)])
+        force = np.array([documented(mk, -x, P) + P["baseline"] if x < 0 else P["baseline"] for x in tip])
+        idnt = make_indentation(force, tip - force / 0.05, segm, tip=tip)
+        seg = rng.choice([0, 1])
+        nb, nc = rng.choice([(2, 3), (2, 4), (3, 3), (3, 4), (2, 5)])      # baseline / contact samples in the interval
+        lo, hi = -(nc + 0.5) * step + off, (nb - 0.5) * step + off
+        nin = int(np.sum((tip >= lo) & (tip <= hi) & (segm == seg)))
+        p0 = copy.deepcopy(truth)
+        p0["E"].set(value=P["E"] * 1.2 ** rng.uniform(-1, 1), vary=True)
+        p0["contact_point"].set(value=0.05 * step * rng.uniform(-1, 1), vary=True)
+        p0["baseline"].set(value=P["baseline"], vary=True)
+        for n_ in p0:
+            if n_ not in ("E", "contact_point", "baseline"):
+                p0[n_].set(vary=False)
+        res, rec = fitlib.fit(idnt, model_key=mk, params_initial=p0, segment=seg, weight_cp=0, range_x=(lo, hi),
+                              range_type="absolute", method="leastsq")
+        meta = {"stream": "sparse sampling", "model": mk, "segment": seg, "samples_in_interval": nin,
+                "range_x": [lo, hi], "step": step, "truth": {"E": P["E"], "baseline": P["baseline"]}}
+        ctx.case(meta, nontrivial=json.dumps(meta, sort_keys=True), bucket=["stream=sparse-sampling", f"n={nin}"])
+        fp = idnt.fit_properties
+        if res != "ok" or not fp.get("success"):
+            ctx.violation("no-success:sparse-sampling", f"exact {mk} data, {nin} samples in the fitted interval, 3 varied "
+                          f"parameters: the fit does not report success ({res})", {"input": meta})
+            continue
+        pf = fp["params_fitted"]
+        fmax = float(np.max(np.abs(force - P["baseline"])))
+        if abs(pf["E"].value - P["E"]) > 1e-3 * P["E"] or abs(pf["contact_point"].value) > 1e-3 * step or \
+                abs(pf["baseline"].value - P["baseline"]) > 1e-5 * fmax:
+            ctx.violation("not-recovered:sparse-sampling", f"exact {mk} data with {nin} samples in the interval: E = "
+                          f"{pf['E'].value!r} (truth {P['E']!r}), contact point {pf['contact_point'].value!r} (truth 0), "
+                          f"baseline {pf['baseline'].value!r} (truth {P['baseline']!r})", {"input": meta})
+
+
 def fixed_cp_noise(ctx):
     """tie of Props/C01Noise: with the contact point fixed the fit is a LINEAR least-squares problem in (E, b);
     nanite's fit of noisy data must land on the closed-form least-squares pair, which the Lean model evaluates
@@ -331,6 +379,7 @@ def run(ctx):
                           {**rep, "observed": bad})
     defaults_isolated(ctx)
     fixed_cp_noise(ctx)
+    sparse_sampling(ctx)
     ctx.extra["basin"] = BASIN
 
 
